@@ -103,6 +103,14 @@ def _opt(v):
     return None if v == NONE_I else v
 
 
+class InjectedStopAsync(StopAsyncIteration):
+    """A user callable fails with (a subclass of) the exception that also ends asynchronous iteration."""
+
+
+class InjectedStop(StopIteration):
+    pass
+
+
 class StrSub(str):
     pass
 
@@ -224,9 +232,8 @@ def build_call(L, tool, par, S, F, rec):
             return [await L.anext(it, *dflt) for _ in range(par["n"])]
         return acalls
     if tool == "sync":
-        f = L.sync(F("func"))
-
         async def two_calls():
+            f = L.sync(F("func"))       # wrapping is part of the operation: whatever it raises is the outcome
             return (await f(Item(1, 1, 1)), await f(Item(1, 2, 1)))
 
         return two_calls
@@ -312,7 +319,8 @@ def execute(case, L, *, sync=False, flav=None, susp=0, fault_kind="exc", cancel_
     _ins.set_mutation_sink(rec.mutations)
     rec.fault = fault_plan(case)
     if rec.fault is not None:
-        rec.fault_exc = {"exc": InjectedError, "typeerr": InjectedTypeError, "cancel": Cancelled}[fault_kind]("injected")
+        rec.fault_exc = {"exc": InjectedError, "typeerr": InjectedTypeError, "cancel": Cancelled,
+                         "stopasync": InjectedStopAsync, "stopiter": InjectedStop}[fault_kind]("injected")
     src_flav = flav["src"]
     S, H = [], []
     list_snap, list_edited = {}, set()     # the caller's lists as handed over / those the harness edited itself
